@@ -148,9 +148,9 @@ def Arena.skeleton (a : Arena) : List (Nat × Nat) := a.map fun c => (c.order, c
 def Arena.AllFree (a : Arena) : Prop := ∀ c ∈ a, c.tree = .free
 
 /-- `malloc(required)`: block size incl. header, rounded to the alignment; its order (`get_bits`) -/
-def orderOf (required : Nat) : Nat :=
-  let n := Gen.blockSize required
-  if n ≤ 1 then 0 else Nat.log2 (n - 1) + 1
+def orderOfSize (n : Nat) : Nat := if n ≤ 1 then 0 else Nat.log2 (n - 1) + 1
+
+def orderOf (required : Nat) : Nat := orderOfSize (Gen.blockSize required)
 
 /-- would `page_alloc(k)` succeed: some free block of order ≥ k exists -/
 def Arena.canAlloc (a : Arena) (k : Nat) : Bool := a.freeBlocks.any fun b => k ≤ b.2
